@@ -29,6 +29,7 @@ def run(tier, seed, jobs):
         "level": "model_checking",
         "coverage": cov,
         "violations": viol,
+        "harness_errors": cov.pop("harness_errors", []),
         "assumptions": [
             "asyncio semantics as reproduced by VLoop (FIFO ready queue, batches)",
             "cancellations arrive as loop callbacks (call_soon_threadsafe-like)",
